@@ -157,6 +157,13 @@ def solve_all(f, X):
                 cl.PrimalSageCone(L.c, L.alpha, None, 'shared1', covers=shared, settings={'sum_age_force_equality': False})
                 if any(not np.array_equal(shared[i], covers[i]) for i in covers):
                     out[('primal', 'shared-covers-dict', 'modified')] = ('covers-modified', [int(i) for i in covers if not np.array_equal(shared[i], covers[i])])
+                # covers written as np.ones(m): the entry of an index in its own cover is meaningless and is corrected, not used
+                diag = {i: np.ones(m, dtype=bool) for i in range(m)}
+                try:
+                    con = cl.PrimalSageCone(L.c, L.alpha, None, 'diag', covers=diag, settings={'sum_age_force_equality': False})
+                    out[('primal', 'fullcovers-with-diagonal', False)] = cl.Problem(cl.MAX, gamma, [con]).solve(verbose=False)
+                except RuntimeError as e:
+                    out[('primal', 'fullcovers-with-diagonal', False)] = ('construction-error', str(e)[:50])
                 for feq in (False, True):
                     # with full covers every term lies in a cover, so forcing equality is without loss of generality
                     con = cl.PrimalSageCone(L.c, L.alpha, None, 'full', covers={i: cv.copy() for i, cv in covers.items()},
